@@ -2,6 +2,8 @@ SPECIFICATION SimSpec
 CONSTANTS
   WorkerCpus <- V_Workers
   WorkerGroup <- V_Groups
+  WorkerLife <- V_Life
+  MaxTicks = 0
   Menu <- V_Menu
   OpenJobs <- V_Open
   Classes <- V_Classes
